@@ -3,10 +3,13 @@
 (* Trace identity and root status of an incoming event (property C21).     *)
 (*                                                                         *)
 (* B3 function vector: Init enumerates every input                         *)
-(*   inp = [path, tn, pn, ev]                                              *)
+(*   inp = [path, tn, pn, kf, ev]                                          *)
 (* where tn / pn are the configured TraceIdFieldNames / ParentIdFieldNames *)
 (* lists (order matters), ev is the payload as the client laid it out: a   *)
 (* sequence of [n |-> field name, ty |-> typing] for the fields present,   *)
+(* kf is the set of these fields that the sampler of the event's          *)
+(* destination ALSO uses as key fields (CoreFieldsUnmarshaler memoizes     *)
+(* those in the same scan; trace identity must not depend on the sampler), *)
 (* and path is the ingestion path (constructor + encoding) of /repo that   *)
 (* the harness uses for it.  The single action Eval stands for "construct  *)
 (* the Payload and extract its metadata" (types.Payload.ExtractMetadata /  *)
@@ -42,6 +45,9 @@ CONSTANTS T1, T2,        \* the two trace-ID field names
           MapOrder,      \* the one layout used for map paths (their order is Go's, not ours)
           SeqPaths,      \* ingestion paths that keep the client's field order (msgpack bytes)
           MapPaths,      \* ingestion paths that go through a Go map
+          KeySets,       \* which of the six fields are ALSO key fields of the destination's sampler
+                         \* (enumerated on KeyPaths only; the answer must not depend on it)
+          KeyPaths,      \* the SeqPaths whose constructor extracts the sampler's key fields
           PTypings,      \* typings enumerated for the parent-ID fields (subset of IdTypings)
           STypings,      \* typings enumerated for meta.signal_type (subset of SigTypings)
           Faithful       \* TRUE: the graph also contains what the unchanged code does
@@ -73,6 +79,10 @@ ParentOrdersQuick == {<<P1, P2>>}
 ParentOrdersBig == {<<P1, P2>>, <<P2, P1>>, <<P2>>}
 ParentOrdersTwo == {<<P1, P2>>, <<P2, P1>>}
 MapOrderDef == <<T1, T2, P1, P2, MT, MS>>
+KeySetsQuick == {{}, {T1, P1}}
+KeySetsBig == {{}, {T1}, {P1}, {T1, P1}, {T2, P2, MS}}
+KeySetsNone == {{}}
+KeySetsOnly == KeySetsBig \ {{}}
 
 \* -------------------------------------------------------------------------
 Build(o, ty) == LET keep == SelectSeq(o, LAMBDA f : ty[f] # "absent")
@@ -129,8 +139,9 @@ CodeTids(i, erase) == {ScanTid(s, i.tn, "", erase) : s \in ScanOrders(i)}
 NotDone == [done |-> FALSE, resSet |-> {}]
 
 Init == /\ \E p \in SeqPaths \cup MapPaths, t \in TraceOrders, q \in ParentOrders, ty \in Typings :
-             \E o \in (IF p \in MapPaths THEN {MapOrder} ELSE Orders) :
-                inp = [path |-> p, tn |-> t, pn |-> q, ev |-> Build(o, ty)]
+             \E o \in (IF p \in MapPaths THEN {MapOrder} ELSE Orders),
+                k \in (IF p \in KeyPaths THEN KeySets ELSE {{}}) :
+                inp = [path |-> p, tn |-> t, pn |-> q, kf |-> k, ev |-> Build(o, ty)]
         /\ out = NotDone
         /\ act = [name |-> "Init"]
 
@@ -155,6 +166,7 @@ Spec == Init /\ [][Next]_vars
 
 TypeOK == /\ inp.path \in SeqPaths \cup MapPaths
           /\ inp.tn \in TraceOrders /\ inp.pn \in ParentOrders
+          /\ inp.kf \in KeySets \cup {{}}
           /\ out.done \in BOOLEAN
           /\ \A r \in out.resSet : r.root \in {"n/a", "yes", "no"}
 
@@ -190,6 +202,10 @@ C21OrderIndependent ==
     \A o \in Orders :
        LET ty == [f \in Fields |-> IF Has(inp.ev, f) THEN Elem(inp.ev, f).ty ELSE "absent"]
        IN  Ideal([inp EXCEPT !.ev = Build(o, ty)]) = TheRes
+
+\* C21: "for any configuration": the sampler's key fields play no part
+C21SamplerIndependent ==
+  IdealStep => \A k \in KeySets : Ideal([inp EXCEPT !.kf = k]) = TheRes
 
 \* with Faithful = FALSE nothing but the ideal answer is in the graph
 OnlyIdeal == (~Faithful /\ out.done) => out.resSet = {Ideal(inp)}
